@@ -64,7 +64,19 @@ def normalize_symbols(problems, texts):
         used = set()
         for f in p['formulas']:
             _symbols_of(f['formula'], used)
-        table = {d: d[:-3] for d in used if d.endswith('__s') and d[:-3] in names and d not in names and d[:-3] not in used}
+        table = {}
+        for d in sorted(used):
+            if d in names:
+                continue
+            # a constant that is not written in the task is a renamed one: it stands for the longest name of the task it
+            # extends (anthem's scheme: <name>__s) that the problem does not use as a constant itself
+            if d.endswith('__s') and d[:-3] in names:
+                if d[:-3] not in used:
+                    table[d] = d[:-3]
+                continue
+            stems = [c for c in names if d.startswith(c) and c not in used]
+            if len(stems) == 1:     # another (consistent) naming scheme: accepted only when the reading is unambiguous
+                table[d] = stems[0]
         if table:
             for f in p['formulas']:
                 f['formula'] = _rename_symbols(f['formula'], table)
